@@ -1063,6 +1063,12 @@ def run(ctx: core.Ctx):
         'exercised at level 2 (generated DDL scripts through the front-end bridge), where the declarative invariant '
         'is audited on the real schema after every statement',
     ]
+    ctx.assumptions += [
+        'refdict collections (ObjectType.pointers, .annotations, .constraints, …) carry name-derived keys inside the '
+        'reduced collection value; FlatSchema stores them as opaque data, so the Lean model and its Inv do not speak '
+        'about them: key consistency (key == key of the member\'s current name, lookup through the owner, no orphans) '
+        'and first-pass == canonical-replay are checked by the real-code oracle of level 2 only',
+    ]
     ctx.trusted_base += [
         'hand-written model EdbVerif/Model/Store.lean of FlatSchema; tied by the differential run above',
         'harness/props/c04.py: generators, value translators, dump canonicalisation and the Python audit of Inv / NoDangling',
